@@ -27,6 +27,10 @@ Check(e) ==
          /\ Report(e.key_bytes = SshEnc(e.kind, e.abs), <<"BAD", "key-blob-is-not-rfc4253-encoding", l>>)
          /\ Report(e.sha256_ok /\ e.sha1_ok /\ e.md5_ok, <<"BAD", "fingerprint-is-not-digest-of-blob", l>>)
          /\ Report(e.known_hosts_ok, <<"BAD", "known-hosts-is-not-base64-of-blob", l>>)
+    [] e.ev = "wirefp" ->        \* a key or certificate as received: the fingerprint is the digest of the received blob.
+         \* For a blob in another than the canonical spelling (an mpint with leading zeros, ...) the library hashes the
+         \* canonical blob of the key; the property text does not say which of the two is "the" blob: reported, not judged.
+         Report(e.ok, <<IF e.mutated THEN "DEV" ELSE "BAD", "fingerprint-is-not-digest-of-received-blob", l>>)
 Init == l = 1
 Next == l <= Len(T) /\ Check(T[l]) /\ l' = l + 1
 Spec == Init /\ [][Next]_l
